@@ -2634,3 +2634,9 @@ package goatlang
 //@   requires v != nil && wfL(v.globals) && idxOK(v.globals)
 //@   modifies *
 //@   nopanic
+//@
+//@ func (*compiler).run
+//@   property C03
+//@   requires wfC(c) && tok != nil
+//@   modifies *
+//@   nopanic
